@@ -1,8 +1,9 @@
 (* C06 - property theorems about the GENERATED model of the code, part A (Euler iterator, solver
-   wrappers, autonomous problems).  Re-checked on every run against build/C06/Iterators_gen.v.
+   wrappers).  Re-checked on every run against build/C06/Iterators_gen.v.
    Only theorems, each closed by [exact] of a lemma of BridgeA.v and followed by Print Assumptions. *)
 From Coq Require Import Reals QArith List Bool.
-Require Import Kawin.Common.Ops Kawin.C06.Model Kawin.C06.Proofs.
+From Coquelicot Require Import Coquelicot.
+Require Import Kawin.Common.Ops Kawin.C06.Model Kawin.C06.Proofs Kawin.C06.Analysis.
 Require Import KawinRun.Iterators_gen KawinRun.BridgeA.
 Import ListNotations.
 Open Scope R_scope.
@@ -18,6 +19,18 @@ Print Assumptions C06_euler_gen_is_rk.
 Theorem C06_euler_taylor1 (f : R -> R -> R) h t y : Euler_R f h t y = taylor y [f t y] h.
 Proof. exact (euler_gen_taylor1 f h t y). Qed.
 Print Assumptions C06_euler_taylor1.
+
+(* explicit Euler is first-order accurate for EVERY right-hand side f(t, y), time-dependent or not:
+   for every solution Y that is twice differentiable on the step, with |Y''| <= M there, the error of
+   one step started on the solution is at most M/2 h^2 *)
+Theorem C06_euler_local_error (f : R -> R -> R) (Y : R -> R) t h M :
+  0 < h ->
+  (forall s, t <= s <= t + h -> is_derive Y s (f s (Y s))) ->
+  (forall s, t <= s <= t + h -> ex_derive_n Y 2 s) ->
+  (forall s, t <= s <= t + h -> Rabs (Derive_n Y 2 s) <= M) ->
+  Rabs (Y (t + h) - Euler_R f h t (Y t)) <= M / 2 * h ^ 2.
+Proof. exact (euler_gen_local_error f Y t h M). Qed.
+Print Assumptions C06_euler_local_error.
 
 Theorem C06_euler_exact_const a0 h t y : Euler_R (fun _ _ => a0) h t y = y + a0 * h.
 Proof. exact (euler_gen_exact_const a0 h t y). Qed.
@@ -35,6 +48,12 @@ Theorem C06_euler_linear_forced l a0 a1 a2 a3 h t y :
 Proof. exact (euler_gen_linear_forced l a0 a1 a2 a3 h t y). Qed.
 Print Assumptions C06_euler_linear_forced.
 
+Theorem C06_euler_ty c h t y :
+  Euler_R (fun t y => c * t * y) h t y =
+  taylor y (firstn 2 (ty_derivs c t y)) h - h ^ 2 * (nth 1 (ty_derivs c t y) 0 / 2).
+Proof. exact (euler_gen_ty c h t y). Qed.
+Print Assumptions C06_euler_ty.
+
 (* vector valued: x' = L x + g0 + t g1 for a linear operator L on any vector space *)
 Theorem C06_euler_affine_system (VS : vspace) (L : VS -> VS) (g0 g1 : VS) getdt t y :
   (forall a b, L (vadd a b) = vadd (L a) (L b)) -> (forall c a, L (smul c a) = smul c (L a)) ->
@@ -42,20 +61,6 @@ Theorem C06_euler_affine_system (VS : vspace) (L : VS -> VS) (g0 g1 : VS) getdt 
   vtaylor y (firstn 1 (affine_derivs VS L g0 g1 t y)) (getdt t y).
 Proof. exact (euler_gen_affine_system VS L g0 g1 getdt t y). Qed.
 Print Assumptions C06_euler_affine_system.
-
-(* on AUTONOMOUS right-hand sides the generated RK4 is the classical scheme whatever the stage times
-   are (true before and after the stage-time repair) *)
-Theorem C06_gen_eq_classic_autonomous (VS : vspace) (g : VS -> VS) getdt t x :
-  RK4_gen VS (fun _ y => g y) getdt t x = (rk_step VS (fun _ y => g y) classic4 t x (getdt t x), getdt t x).
-Proof. exact (gen_eq_classic_autonomous VS g getdt t x). Qed.
-Print Assumptions C06_gen_eq_classic_autonomous.
-
-Theorem C06_rk4_autonomous_order_4 :
-  exists tab, order_conditions tab trees_le4 = true /\
-    forall (VS : vspace) (g : VS -> VS) getdt t x,
-      RK4_gen VS (fun _ y => g y) getdt t x = (rk_step VS (fun _ y => g y) tab t x (getdt t x), getdt t x).
-Proof. exact gen_autonomous_order_4. Qed.
-Print Assumptions C06_rk4_autonomous_order_4.
 
 (* DESolver._getdXdt hands the model the time and state it was given, and _updateX is x + h k when
    the model does not correct derivatives *)
